@@ -1,11 +1,1368 @@
+/-
+  C17 — Invalid input is rejected up front, with a typed error and no side effects.
+
+  Statements and final proofs.  Models: Model/Settings.lean (settings.py + config.py),
+  Model/Pipeline.lean (phase order of main.client / main.graphql_schema with an effect log;
+  graphql-core's verdicts are oracle inputs).  Lemmas: Proofs/Settings.lean.
+
+  Shape (DESIGN.md §0):  `C17_full` is the property at full strength, `C17_full_false` refutes it
+  from witnesses (one per open finding, each replayed on the real code by harness/c17.py),
+  `C17_partial` proves it outside the finding triggers.  The settings clauses
+  (`violation_typed`, `valid_accepted`, `unknown_keys_ignored`, `settings_pure`) and the phase
+  clause (`no_write_before_generate`) are proved for all inputs without exception.
+-/
 import AriadneModel.Model.Settings
 import AriadneModel.Model.Pipeline
+import AriadneModel.Proofs.Settings
+
+set_option linter.unusedSimpArgs false
+set_option linter.unusedVariables false
 
 namespace Ariadne.C17
 open Ariadne Ariadne.Settings Ariadne.Pipeline
 
-theorem stub_no_write_before_generate (r : ClientRun) (e : Phase × PyErr) (h : prepare r = .error e) :
-    (client r).log = [] := by
-  simp [client, h]
+/-! ## 1. Every documented single-constraint violation yields its exception (client settings) -/
+
+/-- the constraint guarded by check `k` is violated (stated on the dataclass fields, the file
+    system, the environment — not on the model's check functions) -/
+def Violates (env : Env) (s : ClientSettings) : ClientCheck → Prop
+  | .queriesRequired => s.queriesPath = "" ∧ s.enableCustomOperations = false
+  | .schemaSource => s.schemaPath = "" ∧ s.remoteSchemaUrl = ""
+  | .schemaPathExists => s.schemaPath ≠ "" ∧ env.pathExists s.schemaPath = false
+  | .headers => ∃ kv ∈ s.remoteSchemaHeaders, ¬ HeaderResolvable env kv.2
+  | .commentMode => Tables.commentsStrategies.contains s.includeComments = false
+  | .queriesPathExists => env.pathExists s.queriesPath = false
+  | .packageName => validName env s.targetPackageName = false
+  | .packagePathDir => env.isDir s.targetPackagePath = false
+  | .clientName => validName env s.clientName = false
+  | .clientFileName => validName env s.clientFileName = false
+  | .baseClientName => validName env (baseClientData env s).1 = false
+  | .baseClientPathExists => env.pathExists (baseClientData env s).2 = false
+  | .baseClientIsFile => env.isFile (baseClientData env s).2 = false
+  | .baseClientClass => classDefinedIn env (baseClientData env s).2 (baseClientData env s).1 = false
+  | .enumsModule => validName env s.enumsModuleName = false
+  | .inputTypesModule => validName env s.inputTypesModuleName = false
+  | .filesToInclude => ∃ f ∈ s.filesToInclude, env.isFile f = false
+
+/-- the exception constructor that corresponds to check `k` (it names the offending value) -/
+def Expected (env : Env) (s : ClientSettings) : ClientCheck → ConfigError → Prop
+  | .queriesRequired, e => e = .missingFields s.missing
+  | .schemaSource, e => e = .noSchemaSource
+  | .schemaPathExists, e => e = .pathMissing s.schemaPath
+  | .headers, e => ∃ kv ∈ s.remoteSchemaHeaders, e = .envVarMissing (lstripDollar kv.2)
+  | .commentMode, e => e = .badCommentMode s.includeComments
+  | .queriesPathExists, e => e = .pathMissing s.queriesPath
+  | .packageName, e => e = .badIdentifier s.targetPackageName
+  | .packagePathDir, e => e = .notDirectory s.targetPackagePath
+  | .clientName, e => e = .badIdentifier s.clientName
+  | .clientFileName, e => e = .badIdentifier s.clientFileName
+  | .baseClientName, e => e = .badIdentifier (baseClientData env s).1
+  | .baseClientPathExists, e => e = .pathMissing (baseClientData env s).2
+  | .baseClientIsFile, e => e = .notFile (baseClientData env s).2
+  | .baseClientClass, e => e = .classNotInFile (baseClientData env s).1 (baseClientData env s).2
+  | .enumsModule, e => e = .badIdentifier s.enumsModuleName
+  | .inputTypesModule, e => e = .badIdentifier s.inputTypesModuleName
+  | .filesToInclude, e => ∃ f ∈ s.filesToInclude, env.isFile f = false ∧ e = .notFile f
+
+theorem identCheck_some_iff (env : Env) (n : String) :
+    (∃ e, identCheck env n = some e) ↔ validName env n = false := by
+  unfold identCheck; cases validName env n <;> simp
+
+theorem identCheck_eq (env : Env) (n : String) (e : ConfigError) (h : identCheck env n = some e) :
+    e = .badIdentifier n := by
+  unfold identCheck at h; split at h <;> simp_all
+
+/-- a check raises exactly when its constraint is violated -/
+theorem check_raises_iff (env : Env) (s : ClientSettings) (k : ClientCheck) :
+    (∃ e, evalClientCheck env s k = some e) ↔ Violates env s k := by
+  cases k <;> simp only [evalClientCheck, Violates]
+  case queriesRequired => cases hq : (s.queriesPath == "") <;> cases s.enableCustomOperations <;> simp_all
+  case schemaSource => cases hq : (s.schemaPath == "") <;> cases hr : (s.remoteSchemaUrl == "") <;> simp_all
+  case schemaPathExists => cases hq : (s.schemaPath == "") <;> cases env.pathExists s.schemaPath <;> simp_all
+  case headers =>
+    constructor
+    · rintro ⟨e, he⟩
+      apply Classical.byContradiction
+      intro hn
+      have : ∀ kv ∈ s.remoteSchemaHeaders, HeaderResolvable env kv.2 := by
+        intro kv hkv
+        apply Classical.byContradiction
+        intro hnr
+        exact hn ⟨kv, hkv, hnr⟩
+      rw [(firstBadHeader_none_iff env _).mpr this] at he
+      cases he
+    · rintro ⟨kv, hkv, hnr⟩
+      cases hb : firstBadHeader env s.remoteSchemaHeaders with
+      | some e => exact ⟨e, rfl⟩
+      | none => exact absurd ((firstBadHeader_none_iff env _).mp hb kv hkv) hnr
+  case commentMode => cases Tables.commentsStrategies.contains s.includeComments <;> simp
+  case queriesPathExists => cases env.pathExists s.queriesPath <;> simp
+  case packageName => exact identCheck_some_iff env _
+  case packagePathDir => cases env.isDir s.targetPackagePath <;> simp
+  case clientName => exact identCheck_some_iff env _
+  case clientFileName => exact identCheck_some_iff env _
+  case baseClientName => exact identCheck_some_iff env _
+  case baseClientPathExists => cases env.pathExists (baseClientData env s).2 <;> simp
+  case baseClientIsFile => cases env.isFile (baseClientData env s).2 <;> simp
+  case baseClientClass => cases classDefinedIn env (baseClientData env s).2 (baseClientData env s).1 <;> simp
+  case enumsModule => exact identCheck_some_iff env _
+  case inputTypesModule => exact identCheck_some_iff env _
+  case filesToInclude =>
+    constructor
+    · rintro ⟨e, he⟩
+      obtain ⟨f, hf, hnf, _⟩ := firstNonFile_some env _ e he
+      exact ⟨f, hf, hnf⟩
+    · rintro ⟨f, hf, hnf⟩
+      cases hb : firstNonFile env s.filesToInclude with
+      | some e => exact ⟨e, rfl⟩
+      | none =>
+        have := (firstNonFile_none_iff env _).mp hb f hf
+        simp [hnf] at this
+
+/-- what a check raises is the corresponding constructor, carrying the offending value -/
+theorem check_error_expected (env : Env) (s : ClientSettings) (k : ClientCheck) (e : ConfigError)
+    (h : evalClientCheck env s k = some e) : Expected env s k e := by
+  cases k <;> simp only [evalClientCheck, Expected] at h ⊢
+  case queriesRequired => split at h <;> simp_all
+  case schemaSource => split at h <;> simp_all
+  case schemaPathExists => split at h <;> simp_all
+  case headers => exact firstBadHeader_some env _ e h
+  case commentMode => split at h <;> simp_all
+  case queriesPathExists => split at h <;> simp_all
+  case packageName => exact identCheck_eq env _ e h
+  case packagePathDir => split at h <;> simp_all
+  case clientName => exact identCheck_eq env _ e h
+  case clientFileName => exact identCheck_eq env _ e h
+  case baseClientName => exact identCheck_eq env _ e h
+  case baseClientPathExists => split at h <;> simp_all
+  case baseClientIsFile => split at h <;> simp_all
+  case baseClientClass => split at h <;> simp_all
+  case enumsModule => exact identCheck_eq env _ e h
+  case inputTypesModule => exact identCheck_eq env _ e h
+  case filesToInclude => exact firstNonFile_some env _ e h
+
+/-- every exception a check raises is an ariadne-codegen exception class
+    (`InvalidConfiguration`, or `MissingConfiguration` for the missing `queries_path`) -/
+theorem check_error_typed (env : Env) (s : ClientSettings) (k : ClientCheck) (e : ConfigError)
+    (h : evalClientCheck env s k = some e) : e.typed = true := by
+  have hx := check_error_expected env s k e h
+  cases k <;> simp only [Expected] at hx
+  case headers => obtain ⟨kv, _, rfl⟩ := hx; rfl
+  case filesToInclude => obtain ⟨f, _, _, rfl⟩ := hx; rfl
+  all_goals (subst hx; rfl)
+
+/-- **violation_typed** (must): if the constraint of check `k` is violated and no earlier check of
+    `__post_init__` fires, the settings are rejected with the exception constructor of `k`
+    (an ariadne-codegen class, carrying the offending value). -/
+theorem violation_typed (env : Env) (s : ClientSettings) (k : ClientCheck) (pre post : List ClientCheck)
+    (hord : ClientCheck.order = pre ++ k :: post)
+    (hk : Violates env s k) (hpre : ∀ k' ∈ pre, ¬ Violates env s k') :
+    ∃ e, clientPostInit env s = .error e ∧ Expected env s k e ∧ e.typed = true := by
+  obtain ⟨e, he⟩ := (check_raises_iff env s k).mpr hk
+  refine ⟨e, ?_, check_error_expected env s k e he, check_error_typed env s k e he⟩
+  have hnone : ∀ k' ∈ pre, evalClientCheck env s k' = none := by
+    intro k' hk'
+    cases hc : evalClientCheck env s k' with
+    | none => rfl
+    | some e' => exact absurd ((check_raises_iff env s k').mp ⟨e', hc⟩) (hpre k' hk')
+  unfold clientPostInit
+  rw [hord, firstError_append_some (evalClientCheck env s) pre post k e he hnone]
+
+/-- non-vacuity of `violation_typed`: a keyword as client name with everything else in order -/
+def exEnv : Env := {
+  pathExists := fun _ => true, isDir := fun _ => true, isFile := fun _ => true,
+  readText := fun _ => "class AsyncBaseClient:", environ := fun _ => none, isIdent := fun _ => true,
+  cwd := "/w", defaultPath := fun k => k }
+def exSettings : ClientSettings :=
+  { schemaPath := "s.graphql", queriesPath := "q.graphql", targetPackagePath := "/w", clientName := "class" }
+example : clientPostInit exEnv exSettings = .error (.badIdentifier "class") := by decide
+
+/-- conversely every rejection comes from a violated constraint all of whose predecessors hold -/
+theorem rejection_is_a_violation (env : Env) (s : ClientSettings) (e : ConfigError)
+    (h : clientPostInit env s = .error e) :
+    ∃ pre k post, ClientCheck.order = pre ++ k :: post ∧ Violates env s k ∧ Expected env s k e ∧
+      ∀ k' ∈ pre, ¬ Violates env s k' := by
+  unfold clientPostInit at h
+  cases hf : firstError (evalClientCheck env s) ClientCheck.order with
+  | none => simp [hf] at h
+  | some e' =>
+    simp [hf] at h
+    subst h
+    obtain ⟨pre, k, post, hs, hk, hpre⟩ := firstError_some_split _ _ _ hf
+    refine ⟨pre, k, post, hs, (check_raises_iff env s k).mp ⟨_, hk⟩, check_error_expected env s k _ hk, ?_⟩
+    intro k' hk' hv
+    obtain ⟨e2, he2⟩ := (check_raises_iff env s k').mpr hv
+    rw [hpre k' hk'] at he2
+    cases he2
+
+/-! ## 2. Every configuration meeting the constraints is accepted -/
+
+theorem mem_order (k : ClientCheck) : k ∈ ClientCheck.order := by cases k <;> decide
+
+/-- **valid_accepted** (must): when no constraint is violated the settings are accepted -/
+theorem valid_accepted (env : Env) (s : ClientSettings) (h : ∀ k, ¬ Violates env s k) :
+    clientPostInit env s = .ok (finalizeClient env s) := by
+  have : firstError (evalClientCheck env s) ClientCheck.order = none := by
+    rw [firstError_none_iff]
+    intro k _
+    cases hc : evalClientCheck env s k with
+    | none => rfl
+    | some e => exact absurd ((check_raises_iff env s k).mp ⟨e, hc⟩) (h k)
+  simp [clientPostInit, this]
+
+theorem accepted_iff (env : Env) (s : ClientSettings) :
+    (∃ s', clientPostInit env s = .ok s') ↔ ∀ k, ¬ Violates env s k := by
+  constructor
+  · rintro ⟨s', hs'⟩ k hv
+    unfold clientPostInit at hs'
+    cases hf : firstError (evalClientCheck env s) ClientCheck.order with
+    | some e => simp [hf] at hs'
+    | none =>
+      obtain ⟨e, he⟩ := (check_raises_iff env s k).mpr hv
+      rw [(firstError_none_iff _ _).mp hf k (mem_order k)] at he
+      cases he
+  · intro h; exact ⟨_, valid_accepted env s h⟩
+
+example : clientPostInit exEnv { exSettings with clientName := "Client" } =
+    .ok (finalizeClient exEnv { exSettings with clientName := "Client" }) := by decide
+
+/-- The DOCUMENTED constraints of the client strategy (README option table + property text):
+    what a user may rely on.  Two of them are stronger than what the code tests:
+    `fragments_module_name` must be a usable module name, and the base client class must be
+    declared in the file (not merely occur as a substring). -/
+structure Documented (env : Env) (s : ClientSettings) : Prop where
+  queries : s.queriesPath ≠ "" ∨ s.enableCustomOperations = true
+  source : s.schemaPath ≠ "" ∨ s.remoteSchemaUrl ≠ ""
+  schemaPath : s.schemaPath ≠ "" → env.pathExists s.schemaPath = true
+  headers : ∀ kv ∈ s.remoteSchemaHeaders, HeaderResolvable env kv.2
+  comments : Tables.commentsStrategies.contains s.includeComments = true
+  queriesPath : env.pathExists s.queriesPath = true
+  packageName : validName env s.targetPackageName = true
+  packagePath : env.isDir s.targetPackagePath = true
+  clientName : validName env s.clientName = true
+  clientFileName : validName env s.clientFileName = true
+  baseClientName : validName env (baseClientData env s).1 = true
+  baseClientPath : env.pathExists (baseClientData env s).2 = true
+  baseClientFile : env.isFile (baseClientData env s).2 = true
+  baseClientClass : classDeclared env (baseClientData env s).2 (baseClientData env s).1 = true
+  enumsModule : validName env s.enumsModuleName = true
+  inputTypesModule : validName env s.inputTypesModuleName = true
+  fragmentsModule : validName env s.fragmentsModuleName = true
+  files : ∀ f ∈ s.filesToInclude, env.isFile f = true
+
+theorem documented_no_violation (env : Env) (s : ClientSettings) (d : Documented env s) (k : ClientCheck) :
+    ¬ Violates env s k := by
+  cases k <;> simp only [Violates]
+  case queriesRequired => rintro ⟨h1, h2⟩; rcases d.queries with h | h <;> simp_all
+  case schemaSource => rintro ⟨h1, h2⟩; rcases d.source with h | h <;> simp_all
+  case schemaPathExists => rintro ⟨h1, h2⟩; have := d.schemaPath h1; simp_all
+  case headers => rintro ⟨kv, hkv, hn⟩; exact hn (d.headers kv hkv)
+  case commentMode => have := d.comments; simp_all
+  case queriesPathExists => simp [d.queriesPath]
+  case packageName => simp [d.packageName]
+  case packagePathDir => simp [d.packagePath]
+  case clientName => simp [d.clientName]
+  case clientFileName => simp [d.clientFileName]
+  case baseClientName => simp [d.baseClientName]
+  case baseClientPathExists => simp [d.baseClientPath]
+  case baseClientIsFile => simp [d.baseClientFile]
+  case baseClientClass => simp [classDeclared_imp_definedIn env _ _ d.baseClientClass]
+  case enumsModule => simp [d.enumsModule]
+  case inputTypesModule => simp [d.inputTypesModule]
+  case filesToInclude => rintro ⟨f, hf, hn⟩; have := d.files f hf; simp_all
+
+/-- every configuration meeting the documented constraints is accepted -/
+theorem documented_accepted (env : Env) (s : ClientSettings) (d : Documented env s) :
+    clientPostInit env s = .ok (finalizeClient env s) :=
+  valid_accepted env s (documented_no_violation env s d)
+
+def badEnv : Env := { exEnv with isIdent := fun n => n != "not-valid" }
+def badSettings : ClientSettings := { exSettings with clientName := "Client", fragmentsModuleName := "not-valid" }
+
+/-- ... but the converse fails: the code accepts configurations that violate a documented
+    constraint (findings C17-F2 and C17-F7). -/
+theorem accepted_not_documented :
+    ¬ (∀ env s, (∃ s', clientPostInit env s = .ok s') → Documented env s) := by
+  intro h
+  have d := h badEnv badSettings ⟨finalizeClient badEnv badSettings, by decide⟩
+  have := d.fragmentsModule
+  revert this
+  decide
+
+/-! ## 3. The graphqlschema strategy's settings -/
+
+def ViolatesS (env : Env) (s : SchemaSettings) : SchemaCheck → Prop
+  | .schemaSource => s.schemaPath = "" ∧ s.remoteSchemaUrl = ""
+  | .schemaPathExists => s.schemaPath ≠ "" ∧ env.pathExists s.schemaPath = false
+  | .headers => ∃ kv ∈ s.remoteSchemaHeaders, ¬ HeaderResolvable env kv.2
+  | .targetFileType =>
+      (pathSuffix s.targetFilePath).isEmpty = true ∨
+      ¬ (asciiLower ((pathSuffix s.targetFilePath).drop 1) = "py" ∨ asciiLower ((pathSuffix s.targetFilePath).drop 1) = "graphql"
+          ∨ asciiLower ((pathSuffix s.targetFilePath).drop 1) = "gql")
+  | .schemaVariable => validName env s.schemaVariableName = false
+  | .typeMapVariable => validName env s.typeMapVariableName = false
+
+def ExpectedS (env : Env) (s : SchemaSettings) : SchemaCheck → ConfigError → Prop
+  | .schemaSource, e => e = .noSchemaSource
+  | .schemaPathExists, e => e = .pathMissing s.schemaPath
+  | .headers, e => ∃ kv ∈ s.remoteSchemaHeaders, e = .envVarMissing (lstripDollar kv.2)
+  | .targetFileType, e => e = .targetNoFileType s.targetFilePath ∨
+      e = .targetBadFileType s.targetFilePath (asciiLower ((pathSuffix s.targetFilePath).drop 1))
+  | .schemaVariable, e => e = .badIdentifier s.schemaVariableName
+  | .typeMapVariable, e => e = .badIdentifier s.typeMapVariableName
+
+theorem checkS_raises_iff (env : Env) (s : SchemaSettings) (k : SchemaCheck) :
+    (∃ e, evalSchemaCheck env s k = some e) ↔ ViolatesS env s k := by
+  cases k <;> simp only [evalSchemaCheck, ViolatesS]
+  case schemaSource => cases hq : (s.schemaPath == "") <;> cases hr : (s.remoteSchemaUrl == "") <;> simp_all
+  case schemaPathExists => cases hq : (s.schemaPath == "") <;> cases env.pathExists s.schemaPath <;> simp_all
+  case headers =>
+    constructor
+    · rintro ⟨e, he⟩
+      apply Classical.byContradiction
+      intro hn
+      have : ∀ kv ∈ s.remoteSchemaHeaders, HeaderResolvable env kv.2 := by
+        intro kv hkv
+        apply Classical.byContradiction
+        intro hnr
+        exact hn ⟨kv, hkv, hnr⟩
+      rw [(firstBadHeader_none_iff env _).mpr this] at he
+      cases he
+    · rintro ⟨kv, hkv, hnr⟩
+      cases hb : firstBadHeader env s.remoteSchemaHeaders with
+      | some e => exact ⟨e, rfl⟩
+      | none => exact absurd ((firstBadHeader_none_iff env _).mp hb kv hkv) hnr
+  case targetFileType =>
+    simp only [targetFileCheck]
+    generalize (pathSuffix s.targetFilePath).isEmpty = b
+    generalize asciiLower ((pathSuffix s.targetFilePath).drop 1) = t
+    cases b
+    · by_cases h1 : t = "py" <;> by_cases h2 : t = "graphql" <;> by_cases h3 : t = "gql" <;> simp [h1, h2, h3]
+    · simp
+  case schemaVariable => exact identCheck_some_iff env _
+  case typeMapVariable => exact identCheck_some_iff env _
+
+theorem checkS_error_expected (env : Env) (s : SchemaSettings) (k : SchemaCheck) (e : ConfigError)
+    (h : evalSchemaCheck env s k = some e) : ExpectedS env s k e := by
+  cases k <;> simp only [evalSchemaCheck, ExpectedS] at h ⊢
+  case schemaSource => split at h <;> simp_all
+  case schemaPathExists => split at h <;> simp_all
+  case headers => exact firstBadHeader_some env _ e h
+  case targetFileType =>
+    simp only [targetFileCheck] at h
+    split at h
+    · left; simp_all
+    · split at h
+      · simp at h
+      · right; simp_all
+  case schemaVariable => exact identCheck_eq env _ e h
+  case typeMapVariable => exact identCheck_eq env _ e h
+
+theorem checkS_error_typed (env : Env) (s : SchemaSettings) (k : SchemaCheck) (e : ConfigError)
+    (h : evalSchemaCheck env s k = some e) : e.typed = true := by
+  have hx := checkS_error_expected env s k e h
+  cases k <;> simp only [ExpectedS] at hx
+  case headers => obtain ⟨kv, _, rfl⟩ := hx; rfl
+  case targetFileType => rcases hx with rfl | rfl <;> rfl
+  all_goals (subst hx; rfl)
+
+/-- **violation_typed** for `GraphQLSchemaSettings` (bad target file suffix, invalid variable names ...) -/
+theorem violation_typed_schema (env : Env) (s : SchemaSettings) (k : SchemaCheck) (pre post : List SchemaCheck)
+    (hord : SchemaCheck.order = pre ++ k :: post)
+    (hk : ViolatesS env s k) (hpre : ∀ k' ∈ pre, ¬ ViolatesS env s k') :
+    ∃ e, schemaPostInit env s = .error e ∧ ExpectedS env s k e ∧ e.typed = true := by
+  obtain ⟨e, he⟩ := (checkS_raises_iff env s k).mpr hk
+  refine ⟨e, ?_, checkS_error_expected env s k e he, checkS_error_typed env s k e he⟩
+  have hnone : ∀ k' ∈ pre, evalSchemaCheck env s k' = none := by
+    intro k' hk'
+    cases hc : evalSchemaCheck env s k' with
+    | none => rfl
+    | some e' => exact absurd ((checkS_raises_iff env s k').mp ⟨e', hc⟩) (hpre k' hk')
+  unfold schemaPostInit
+  rw [hord, firstError_append_some (evalSchemaCheck env s) pre post k e he hnone]
+
+example : schemaPostInit exEnv { schemaPath := "s.graphql", targetFilePath := "out/schema.txt" } =
+    .error (.targetBadFileType "out/schema.txt" "txt") := by decide
+example : schemaPostInit exEnv { schemaPath := "s.graphql", targetFilePath := "schema" } =
+    .error (.targetNoFileType "schema") := by decide
+
+theorem valid_accepted_schema (env : Env) (s : SchemaSettings) (h : ∀ k, ¬ ViolatesS env s k) :
+    schemaPostInit env s = .ok (finalizeSchema env s) := by
+  have : firstError (evalSchemaCheck env s) SchemaCheck.order = none := by
+    rw [firstError_none_iff]
+    intro k _
+    cases hc : evalSchemaCheck env s k with
+    | none => rfl
+    | some e => exact absurd ((checkS_raises_iff env s k).mp ⟨e, hc⟩) (h k)
+  simp [schemaPostInit, this]
+
+example : schemaPostInit exEnv { schemaPath := "s.graphql", targetFilePath := "d.x/S.GraphQL" } =
+    .ok (finalizeSchema exEnv { schemaPath := "s.graphql", targetFilePath := "d.x/S.GraphQL" }) := by decide
+
+/-! ## 4. config.py: section lookup, scalars, unknown keys, purity -/
+
+/-- a configuration whose section is `[tool.ariadne-codegen]` -/
+def mkCfg (sec : Dict) : J := .obj [("tool", .obj [("ariadne-codegen", .obj sec)])]
+
+theorem getSection_mkCfg (sec : Dict) : getSection (mkCfg sec) = .ok (sec, false) := by
+  simp [getSection, mkCfg, J.lookup]
+
+/-- no `[tool.ariadne-codegen]` and no `[ariadne-codegen]` section: `MissingConfiguration`, both strategies -/
+theorem no_section_rejected (env : Env) (top : Dict)
+    (h1 : J.lookup "tool" top = none ∨ ∃ tool, J.lookup "tool" top = some (.obj tool) ∧ J.lookup "ariadne-codegen" tool = none)
+    (h2 : J.lookup "ariadne-codegen" top = none) :
+    (getClientSettings env (.obj top)).result = .error .missingSection ∧
+    (getSchemaSettings env (.obj top)).result = .error .missingSection := by
+  have hs : getSection (.obj top) = .error .missingSection := by
+    rcases h1 with h | ⟨tool, ht, hn⟩
+    · simp [getSection, h, h2]
+    · simp [getSection, ht, hn, h2]
+  simp [getClientSettings, readRawClient, getSchemaSettings, readRawSchema, hs, bind, Except.bind]
+
+example : (getClientSettings exEnv (.obj [("tool", .obj [("black", .obj [])])])).result = .error .missingSection := by decide
+
+/-- the deprecated top-level section is still read (with a warning), `[tool.ariadne-codegen]` wins -/
+theorem deprecated_section_read (env : Env) (top sec : Dict) (h1 : J.lookup "tool" top = none)
+    (h2 : J.lookup "ariadne-codegen" top = some (.obj sec)) :
+    getSection (.obj top) = .ok (sec, true) := by
+  simp [getSection, h1, h2]
+
+theorem parseScalars_missing_type (pre post : List (String × J)) (n : String) (d : List (String × J))
+    (pres : List ScalarData) (hpre : parseScalars pre = .ok pres) (hd : J.lookup "type" d = none) :
+    parseScalars (pre ++ (n, .obj d) :: post) = .error .scalarMissingType := by
+  induction pre generalizing pres with
+  | nil => simp [parseScalars, parseScalar, hd, bind, Except.bind]
+  | cons kv pre ih =>
+    obtain ⟨k, v⟩ := kv
+    simp only [parseScalars, List.cons_append, bind, Except.bind] at hpre ⊢
+    cases hk : parseScalar k v with
+    | error e => simp [hk] at hpre
+    | ok sd =>
+      simp only [hk] at hpre ⊢
+      cases hr : parseScalars pre with
+      | error e => simp [hr] at hpre
+      | ok r => simp [ih r hr]
+
+/-- **scalar without type**: the first scalar table lacking `type` (all earlier ones well-formed)
+    makes `get_client_settings` raise `MissingConfiguration("Missing 'type' field ...")` -/
+theorem scalar_without_type_rejected (env : Env) (sec : Dict) (pre post : List (String × J)) (n : String)
+    (d : List (String × J)) (pres : List ScalarData)
+    (hs : J.lookup "scalars" sec = some (.obj (pre ++ (n, .obj d) :: post)))
+    (hpre : parseScalars pre = .ok pres) (hd : J.lookup "type" d = none) :
+    (getClientSettings env (mkCfg sec)).result = .error .scalarMissingType := by
+  simp [getClientSettings, readRawClient, getSection_mkCfg, Heap.copy, hs, bind, Except.bind,
+    parseScalars_missing_type pre post n d pres hpre hd]
+
+example : (getClientSettings exEnv (mkCfg [("schema_path", .str "s"), ("queries_path", .str "q"),
+    ("scalars", .obj [("A", .obj [("type", .str "str")]), ("B", .obj [("parse", .str "p")])])])).result
+    = .error .scalarMissingType := by decide
+
+/-- **settings_pure** (must): reading settings never mutates the configuration it is given —
+    `get_client_settings` copies the section before its two item assignments, and
+    `get_graphql_schema_settings` assigns nothing. -/
+theorem settings_pure (env : Env) (cfg : J) :
+    (getClientSettings env cfg).callerAfter = cfg ∧ (getSchemaSettings env cfg).callerAfter = cfg := by
+  constructor
+  · simp only [getClientSettings, readRawClient]
+    cases hs : getSection cfg with
+    | error e => rfl
+    | ok p =>
+      obtain ⟨sec, depr⟩ := p
+      simp only [Heap.copy]
+      split
+      · rfl
+      · split <;> simp [Heap.setItem]
+  · simp only [getSchemaSettings, readRawSchema]
+    cases hs : getSection cfg with
+    | error e => rfl
+    | ok p => rfl
+
+/-- the copy is what makes it so: an item assignment through an ALIASED section reaches the caller -/
+example : ((({ caller := mkCfg [("a", .null)], viaTool := true, section_ := [("a", .null)], aliased := true } : Heap).setItem
+    "scalars" (.obj [])).caller == mkCfg [("a", .null), ("scalars", .obj [])]) = true := by decide
+
+def knownClientKey (k : String) : Bool := clientFieldNames.contains k
+def onlyKnown (sec : Dict) : Dict := sec.filter (fun kv => knownClientKey kv.1)
+
+theorem onlyKnown_idem (sec : Dict) : onlyKnown (onlyKnown sec) = onlyKnown sec := by
+  simp [onlyKnown, List.filter_filter]
+
+theorem lookup_dictSet_ne (k k' : String) (v : J) (l : Dict) (h : k ≠ k') :
+    J.lookup k (dictSet k' v l) = J.lookup k l := by
+  induction l with
+  | nil => simp [dictSet, J.lookup, h.symm]
+  | cons kv rest ih =>
+    obtain ⟨k2, v2⟩ := kv
+    by_cases he : (k2 == k') = true
+    · have : k2 = k' := by simpa using he
+      subst this
+      simp [dictSet, J.lookup, h.symm]
+    · have hne : k2 ≠ k' := by simpa using he
+      by_cases hk : k2 = k
+      · subst hk
+        simp [dictSet, J.lookup, h]
+      · simp [dictSet, he, J.lookup, hk, ih, hne]
+
+theorem raw_result_onlyKnown (env : Env) (sec : Dict) :
+    (readRawClient env (mkCfg sec)).result = (readRawClient env (mkCfg (onlyKnown sec))).result := by
+  have hsc : J.lookup "scalars" (onlyKnown sec) = J.lookup "scalars" sec :=
+    lookup_filter_key knownClientKey "scalars" (by decide) sec
+  have hic : J.lookup "include_comments" (onlyKnown sec) = J.lookup "include_comments" sec :=
+    lookup_filter_key knownClientKey "include_comments" (by decide) sec
+  simp only [readRawClient, getSection_mkCfg, Heap.copy, hsc]
+  generalize (match J.lookup "scalars" sec with
+    | none => (Except.ok [] : Except ConfigError (List (String × J)))
+    | some (J.obj kvs) => Except.ok kvs
+    | some _ => Except.error (ConfigError.illTyped "scalars")) >>= parseScalars = parsed
+  cases parsed with
+  | error e => rfl
+  | ok scalars =>
+    simp only [Heap.setItem]
+    rw [lookup_dictSet_ne "include_comments" "scalars" _ sec (by decide),
+        lookup_dictSet_ne "include_comments" "scalars" _ (onlyKnown sec) (by decide), hic]
+    have hf1 : ∀ v l, onlyKnown (dictSet "scalars" v l) = dictSet "scalars" v (onlyKnown l) :=
+      fun v l => filter_dictSet knownClientKey "scalars" v (by decide) l
+    have hf2 : ∀ v l, onlyKnown (dictSet "include_comments" v l) = dictSet "include_comments" v (onlyKnown l) :=
+      fun v l => filter_dictSet knownClientKey "include_comments" v (by decide) l
+    cases hl : J.lookup "include_comments" sec with
+    | none =>
+      simp only [buildClient]
+      show assignClientFields env (onlyKnown _) scalars = assignClientFields env (onlyKnown _) scalars
+      simp only [hf1, hf2, onlyKnown_idem]
+    | some v =>
+      cases v with
+      | bool b =>
+        simp only [buildClient]
+        show assignClientFields env (onlyKnown _) scalars = assignClientFields env (onlyKnown _) scalars
+        simp only [hf1, hf2, onlyKnown_idem]
+      | _ =>
+        simp only [buildClient]
+        show assignClientFields env (onlyKnown _) scalars = assignClientFields env (onlyKnown _) scalars
+        simp only [hf1, hf2, onlyKnown_idem]
+
+/-- **unknown_keys_ignored** (must): two sections that agree on the keys `ClientSettings` knows
+    (same values, same order) are read to the same result, whatever else they contain -/
+theorem unknown_keys_ignored (env : Env) (sec sec' : Dict) (h : onlyKnown sec = onlyKnown sec') :
+    (getClientSettings env (mkCfg sec)).result = (getClientSettings env (mkCfg sec')).result := by
+  simp only [getClientSettings]
+  rw [raw_result_onlyKnown env sec, raw_result_onlyKnown env sec', h]
+
+example : onlyKnown [("zzz", .num 1 0), ("schema_path", .str "s"), ("Schema_Path", .str "x"), ("queries_path", .str "q")]
+    = onlyKnown [("schema_path", .str "s"), ("queries_path", .str "q"), ("nested", .obj [])] := by
+  simp [onlyKnown, knownClientKey, clientFieldNames, Tables.clientSettingsFields, List.filter]
+
+def knownSchemaKey (k : String) : Bool := schemaFieldNames.contains k
+
+theorem unknown_keys_ignored_schema (env : Env) (sec sec' : Dict)
+    (h : sec.filter (fun kv => knownSchemaKey kv.1) = sec'.filter (fun kv => knownSchemaKey kv.1)) :
+    (getSchemaSettings env (mkCfg sec)).result = (getSchemaSettings env (mkCfg sec')).result := by
+  have h' : sec.filter (fun kv => schemaFieldNames.contains kv.1) = sec'.filter (fun kv => schemaFieldNames.contains kv.1) := h
+  simp only [getSchemaSettings, readRawSchema, getSection_mkCfg, buildSchema, h']
+
+/-- the option names the two filters are built from are the dataclass fields of the pinned tree
+    (regenerated table: a new or renamed option breaks this and with it the build) -/
+theorem client_field_names :
+    clientFieldNames = ["schema_path", "remote_schema_url", "remote_schema_headers", "remote_schema_verify_ssl",
+      "enable_custom_operations", "plugins", "queries_path", "target_package_name", "target_package_path",
+      "client_name", "client_file_name", "base_client_name", "base_client_file_path", "enums_module_name",
+      "input_types_module_name", "fragments_module_name", "include_comments", "convert_to_snake_case",
+      "include_all_inputs", "include_all_enums", "async_client", "opentelemetry_client", "files_to_include",
+      "scalars"] := by decide +kernel
+
+/-- the defaults the model assigns are the dataclass defaults of the pinned tree -/
+theorem client_defaults_table :
+    Tables.clientSettingsFields.filter (fun p => p.2 != "<factory>") =
+      [("schema_path", "''"), ("remote_schema_url", "''"), ("remote_schema_verify_ssl", "True"),
+       ("enable_custom_operations", "False"), ("queries_path", "''"), ("target_package_name", "'graphql_client'"),
+       ("client_name", "'Client'"), ("client_file_name", "'client'"), ("base_client_name", "''"),
+       ("base_client_file_path", "''"), ("enums_module_name", "'enums'"), ("input_types_module_name", "'input_types'"),
+       ("fragments_module_name", "'fragments'"), ("include_comments", "'stable'"), ("convert_to_snake_case", "True"),
+       ("include_all_inputs", "True"), ("include_all_enums", "True"), ("async_client", "True"),
+       ("opentelemetry_client", "False")] ∧
+    Tables.schemaSettingsFields.filter (fun p => p.2 != "<factory>") =
+      [("schema_path", "''"), ("remote_schema_url", "''"), ("remote_schema_verify_ssl", "True"),
+       ("enable_custom_operations", "False"), ("target_file_path", "'schema.py'"), ("schema_variable_name", "'schema'"),
+       ("type_map_variable_name", "'type_map'")] := by decide +kernel
+
+/-- the four bundled base clients the defaults refer to exist in the regenerated table -/
+theorem default_clients_table :
+    ∀ a o, (defaultClassName (clientKind a o)).isSome = true := by decide +kernel
+
+/-- no keyword is accepted as a name, whatever `str.isidentifier` says (C17-F1 stays fixed) -/
+theorem keyword_never_valid (env : Env) (n : String) (h : n ∈ Tables.kwlist) : validName env n = false := by
+  have : isKeyword n = true := by simpa [isKeyword] using h
+  simp [validName, this]
+
+/-! ## 5. The phase order: nothing is written before `PackageGenerator.generate` reaches `mkdir` -/
+
+/-- **no_write_before_generate** (must), for ALL inputs: whatever makes `main.client` fail in the
+    settings, schema loading, plugin lookup, validity assertion, query loading/validation,
+    `add_operation` or the file-name uniqueness check leaves the effect log empty. -/
+theorem generate_spec (r : ClientRun) (p : Prepared) :
+    ((generate r p).log = [] ∧ ∃ m, (generate r p).result = .error (.generatePre, .codegen "ParsingError" m)) ∨
+    (∃ e, (generate r p).result = .error (.generateWrite, e)) ∨ (∃ fs, (generate r p).result = .ok fs) := by
+  by_cases hd : (!(duplicates (allFileNames r.env p.settings p.resultFiles)).isEmpty) = true
+  · left; simp [generate, hd]
+  · right
+    simp only [generate, hd]
+    generalize runSteps r.codeError _ _ = rs
+    obtain ⟨oe, log⟩ := rs
+    cases oe <;> simp
+
+theorem no_write_before_generate (r : ClientRun) (ph : Phase) (e : PyErr)
+    (h : (client r).result = .error (ph, e)) (hph : ph ≠ .generateWrite) : (client r).log = [] := by
+  unfold client at h ⊢
+  cases hp : prepare r with
+  | error x => rfl
+  | ok p =>
+    simp only [hp] at h ⊢
+    rcases generate_spec r p with ⟨hl, _⟩ | ⟨e', he'⟩ | ⟨fs, hfs⟩
+    · exact hl
+    · rw [he'] at h
+      simp at h
+      exact absurd h.1.symm hph
+    · rw [hfs] at h
+      cases h
+
+/-- inversion of `prepare`: which phase failed, and that every earlier phase had succeeded -/
+theorem prepare_error_cases (r : ClientRun) (ph : Phase) (e : PyErr) (h : prepare r = .error (ph, e)) :
+    (∃ ce, (getClientSettings r.env r.cfg).result = .error ce ∧ ph = .settings ∧ e = .config ce) ∨
+    (∃ s, (getClientSettings r.env r.cfg).result = .ok s ∧
+      ((loadSchema (s.schemaPath != "") r.schema = .error e ∧ ph = .loadSchema) ∨
+       (∃ sch, loadSchema (s.schemaPath != "") r.schema = .ok sch ∧
+         ((resolvePlugins r.plugins = .error e ∧ ph = .plugins) ∨
+          (resolvePlugins r.plugins = .ok () ∧
+            ((assertValid (processSchema r.plugins sch) = .error e ∧ ph = .assertValid) ∨
+             (assertValid (processSchema r.plugins sch) = .ok () ∧
+               (((s.queriesPath != "") = true ∧ loadQueries r.queries = .error e ∧ ph = .loadQueries) ∨
+                (ph = .addOperation ∧ ((s.queriesPath != "") = true → loadQueries r.queries = .ok ())))))))))) := by
+  unfold prepare at h
+  simp only [bind, Except.bind, pure, Except.pure, throw, throwThe, MonadExceptOf.throw] at h
+  cases h1 : (getClientSettings r.env r.cfg).result with
+  | error ce =>
+    simp only [h1] at h
+    injection h with h; injection h with ha hb
+    exact Or.inl ⟨ce, rfl, ha.symm, hb.symm⟩
+  | ok s =>
+    simp only [h1] at h
+    refine Or.inr ⟨s, rfl, ?_⟩
+    cases h2 : loadSchema (s.schemaPath != "") r.schema with
+    | error e2 =>
+      simp only [h2] at h
+      injection h with h; injection h with ha hb
+      exact Or.inl ⟨by rw [hb], ha.symm⟩
+    | ok sch =>
+      simp only [h2] at h
+      refine Or.inr ⟨sch, rfl, ?_⟩
+      cases h3 : resolvePlugins r.plugins with
+      | error e3 =>
+        simp only [h3] at h
+        injection h with h; injection h with ha hb
+        exact Or.inl ⟨by rw [hb], ha.symm⟩
+      | ok u =>
+        simp only [h3] at h
+        refine Or.inr ⟨rfl, ?_⟩
+        cases h4 : assertValid (processSchema r.plugins sch) with
+        | error e4 =>
+          simp only [h4] at h
+          injection h with h; injection h with ha hb
+          exact Or.inl ⟨by rw [hb], ha.symm⟩
+        | ok u2 =>
+          simp only [h4] at h
+          refine Or.inr ⟨rfl, ?_⟩
+          by_cases hq : (s.queriesPath != "") = true
+          · simp only [hq, if_true] at h
+            cases h5 : loadQueries r.queries with
+            | error e5 =>
+              simp only [h5] at h
+              injection h with h; injection h with ha hb
+              exact Or.inl ⟨hq, by rw [hb], ha.symm⟩
+            | ok u3 =>
+              simp only [h5] at h
+              cases h6 : addOperations s.asyncClient r.queries.ops [] with
+              | error e6 =>
+                simp only [h6] at h
+                injection h with h; injection h with ha hb
+                exact Or.inr ⟨ha.symm, fun _ => rfl⟩
+              | ok fs => simp [h6] at h
+          · simp only [hq] at h
+            cases h6 : addOperations s.asyncClient [] [] with
+            | error e6 =>
+              simp only [h6] at h
+              injection h with h; injection h with ha hb
+              exact Or.inr ⟨ha.symm, fun hq' => absurd hq' hq⟩
+            | ok fs => simp [h6] at h
+
+/-- inversion of a successful `prepare`: every phase before `generate` succeeded -/
+theorem prepare_ok_cases (r : ClientRun) (p : Prepared) (h : prepare r = .ok p) :
+    ∃ s sch, (getClientSettings r.env r.cfg).result = .ok s ∧ loadSchema (s.schemaPath != "") r.schema = .ok sch ∧
+      resolvePlugins r.plugins = .ok () ∧ assertValid (processSchema r.plugins sch) = .ok () ∧
+      ((s.queriesPath != "") = true → loadQueries r.queries = .ok ()) ∧ p.settings = s := by
+  unfold prepare at h
+  simp only [bind, Except.bind, pure, Except.pure, throw, throwThe, MonadExceptOf.throw] at h
+  cases h1 : (getClientSettings r.env r.cfg).result with
+  | error ce => simp [h1] at h
+  | ok s =>
+    simp only [h1] at h
+    cases h2 : loadSchema (s.schemaPath != "") r.schema with
+    | error e2 => simp [h2] at h
+    | ok sch =>
+      simp only [h2] at h
+      cases h3 : resolvePlugins r.plugins with
+      | error e3 => simp [h3] at h
+      | ok u =>
+        simp only [h3] at h
+        cases h4 : assertValid (processSchema r.plugins sch) with
+        | error e4 => simp [h4] at h
+        | ok u2 =>
+          simp only [h4] at h
+          refine ⟨s, sch, rfl, h2, rfl, h4, ?_⟩
+          by_cases hq : (s.queriesPath != "") = true
+          · simp only [hq, if_true] at h
+            cases h5 : loadQueries r.queries with
+            | error e5 => simp [h5] at h
+            | ok u3 =>
+              simp only [h5] at h
+              cases h6 : addOperations s.asyncClient r.queries.ops [] with
+              | error e6 => simp [h6] at h
+              | ok fs =>
+                simp only [h6] at h
+                injection h with h
+                exact ⟨fun _ => rfl, by rw [← h]⟩
+          · simp only [hq] at h
+            cases h6 : addOperations s.asyncClient [] [] with
+            | error e6 => simp [h6] at h
+            | ok fs =>
+              simp only [h6] at h
+              injection h with h
+              exact ⟨fun hq' => absurd hq' hq, by rw [← h]⟩
+
+/-- the phases `prepare` can fail in are exactly the six before `generate` -/
+theorem prepare_phase (r : ClientRun) (ph : Phase) (e : PyErr) (h : prepare r = .error (ph, e)) :
+    ph = .settings ∨ ph = .loadSchema ∨ ph = .plugins ∨ ph = .assertValid ∨ ph = .loadQueries ∨ ph = .addOperation := by
+  rcases prepare_error_cases r ph e h with ⟨_, _, h, _⟩ | ⟨_, _, ⟨_, h⟩ | ⟨_, _, ⟨_, h⟩ | ⟨_, ⟨_, h⟩ | ⟨_, ⟨_, _, h⟩ | ⟨h, _⟩⟩⟩⟩⟩ <;> simp [h]
+
+/-- the graphqlschema strategy: every failure leaves the target file untouched -/
+theorem schema_no_write_on_failure (r : SchemaRun) (x : Phase × PyErr)
+    (h : (graphqlSchema r).result = .error x) : (graphqlSchema r).log = [] := by
+  unfold graphqlSchema at h ⊢
+  cases h1 : (getSchemaSettings r.env r.cfg).result with
+  | error e => rfl
+  | ok s =>
+    simp only [h1] at h ⊢
+    cases h2 : loadSchema (s.schemaPath != "") r.schema with
+    | error e => rfl
+    | ok sch =>
+      simp only [h2] at h ⊢
+      cases h3 : resolvePlugins r.plugins with
+      | error e => rfl
+      | ok u =>
+        simp only [h3] at h ⊢
+        cases h4 : assertValid (processSchema r.plugins sch) with
+        | error e => rfl
+        | ok u2 =>
+          simp only [h4] at h ⊢
+          cases h5 : r.writeError with
+          | some e => rfl
+          | none => simp [h5] at h
+
+/-! ## 6. `assume_valid` makes the validity assertion vacuous (proved negative, finding C17-F3) -/
+
+theorem codeAssumeValid_true : codeAssumeValid = true := rfl
+
+theorem loadSchema_ok (fromPath : Bool) (o : SchemaOracle) (sch : SchemaState) (h : loadSchema fromPath o = .ok sch) :
+    sch.cache = some 0 ∧ sch.hasQuery = o.hasQuery ∧ sch.hasMutation = o.hasMutation ∧ o.buildError = none := by
+  unfold loadSchema at h
+  simp only [bind, Except.bind, pure, Except.pure, throw, throwThe, MonadExceptOf.throw, codeAssumeValid, if_true] at h
+  have key : ∀ (x : Except PyErr SchemaState),
+      x = (match o.buildError with
+        | some _ => Except.error (PyErr.raw "TypeError")
+        | none => Except.ok { cache := some 0, trueErrors := o.trueErrors, hasQuery := o.hasQuery, hasMutation := o.hasMutation }) →
+      x = .ok sch → sch.cache = some 0 ∧ sch.hasQuery = o.hasQuery ∧ sch.hasMutation = o.hasMutation ∧ o.buildError = none := by
+    intro x hx hs
+    cases hb : o.buildError with
+    | some m => simp [hb] at hx; rw [hx] at hs; cases hs
+    | none => simp [hb] at hx; rw [hx] at hs; injection hs with hs; subst hs; simp
+  cases fromPath with
+  | true =>
+    simp only [if_true] at h
+    cases hl : loadSource o.src with
+    | error e => simp [hl] at h
+    | ok u => simp only [hl] at h; exact key _ rfl h
+  | false =>
+    simp only [Bool.false_eq_true, if_false] at h
+    cases hr : o.remote with
+    | ok => simp only [hr] at h; exact key _ rfl h
+    | introspectionError m => simp [hr] at h
+    | raw c => simp [hr] at h
+
+/-- **assert_valid_is_vacuous**: a schema that came out of `get_graphql_schema_from_path/_from_url`
+    (built with `assume_valid=True`) passes `assert_valid_schema` however many errors validation would
+    find, unless a plugin swapped the schema object. -/
+theorem assert_valid_is_vacuous (fromPath : Bool) (o : SchemaOracle) (p : PluginsOracle) (sch : SchemaState)
+    (h : loadSchema fromPath o = .ok sch) (hp : p.replaces = none) :
+    assertValid (processSchema p sch) = .ok () := by
+  have hc := (loadSchema_ok fromPath o sch h).1
+  simp [processSchema, hp, assertValid, validationErrorsSeen, hc]
+
+/-- consequently `main.client` never fails in the validity assertion -/
+theorem client_never_fails_at_assertValid (r : ClientRun) (hp : r.plugins.replaces = none) (e : PyErr) :
+    prepare r ≠ .error (.assertValid, e) := by
+  intro h
+  rcases prepare_error_cases r _ e h with ⟨_, _, h, _⟩ | ⟨_, _, ⟨_, h⟩ | ⟨sch, hl, ⟨_, h⟩ | ⟨_, ⟨ha, _⟩ | ⟨_, ⟨_, _, h⟩ | ⟨h, _⟩⟩⟩⟩⟩
+  all_goals first
+    | (cases h; done)
+    | (rw [assert_valid_is_vacuous _ _ _ _ hl hp] at ha; cases ha)
+
+/-- only a schema object that was NOT built with assume_valid can make the assertion fire — and then
+    what escapes is graphql-core's bare `TypeError`, not an ariadne-codegen exception -/
+theorem assertValid_error_untyped (s : SchemaState) (e : PyErr) (h : assertValid s = .error e) : e.typed = false := by
+  simp only [assertValid] at h
+  generalize validationErrorsSeen s = n at h
+  by_cases hn : (n == 0) = true
+  · simp [hn] at h
+  · simp only [hn] at h
+    injection h with h
+    subst h
+    rfl
+
+/-! ## 7. C17 at full strength, its refutation, and the part that holds -/
+
+/-- the configuration violates a documented constraint: no section, a scalar without type, or a
+    dataclass that does not meet `Documented` -/
+def ConfigInvalid (env : Env) (cfg : J) : Prop :=
+  match (readRawClient env cfg).result with
+  | .error e => e.typed = true
+  | .ok s => ¬ Documented env s
+
+/-- a graphql source with a file that does not parse, or with no graphql file at all -/
+def BadSource (s : Source) : Prop := s.files = [] ∨ ∃ f ∈ s.files, f.2 = false
+
+def SyntaxInvalid (r : ClientRun) : Prop :=
+  ∃ s, (getClientSettings r.env r.cfg).result = .ok s ∧
+    ((s.schemaPath ≠ "" ∧ BadSource r.schema.src) ∨ (s.queriesPath ≠ "" ∧ BadSource r.queries.src))
+
+/-- graphql-core cannot build the schema, or validation (SDL + type-system rules) finds errors -/
+def SchemaInvalid (r : ClientRun) : Prop := r.schema.buildError.isSome = true ∨ r.schema.trueErrors ≠ 0
+
+def OperationInvalid (r : ClientRun) : Prop :=
+  ∃ s, (getClientSettings r.env r.cfg).result = .ok s ∧ s.queriesPath ≠ "" ∧ r.queries.validationErrors ≠ []
+
+/-- the four classes of invalid input the property names -/
+def Invalid (r : ClientRun) : Prop :=
+  ConfigInvalid r.env r.cfg ∨ SyntaxInvalid r ∨ SchemaInvalid r ∨ OperationInvalid r
+
+/-- the modelled domain (`Valid` of the conventions): well-typed option values, an introspection
+    transport that answers (C19's subject), plugins that do not swap the schema object -/
+structure InDomain (r : ClientRun) : Prop where
+  wellTyped : ∀ e, (getClientSettings r.env r.cfg).result = .error e → e.typed = true
+  remote : ∀ c, r.schema.remote ≠ .raw c
+  plugins : r.plugins.replaces = none
+
+/-- fails with one of ariadne-codegen's exception classes, before anything was written -/
+def RejectedUpFront (o : Outcome) : Prop := ∃ ph e, o.result = .error (ph, e) ∧ e.typed = true ∧ o.log = []
+
+/-- **C17 at full strength** (the property as stated) -/
+def C17_full : Prop := ∀ r : ClientRun, InDomain r → Invalid r → RejectedUpFront (client r)
+
+/-- complement of the finding triggers -/
+def Supported (r : ClientRun) : Prop :=
+  ¬ (trigFragmentsModuleName r.env r.cfg = true ∨ trigInvalidSchemaAssumed r.schema r.plugins = true ∨
+     trigSchemaBuildTypeError r.schema = true ∨ trigFragmentGenError r.queries = true ∨
+     trigNoGraphqlFiles r = true ∨ trigClassSubstring r.env r.cfg = true)
+
+/-! ### witnesses (each is replayed on the real code by harness/c17.py, corpus/C17) -/
+
+def wCfg (extra : Dict) : J :=
+  mkCfg ([("schema_path", .str "schema.graphql"), ("queries_path", .str "queries.graphql"),
+          ("target_package_path", .str "/w/out")] ++ extra)
+
+def wOp : OpInfo := { name := some "GetA", moduleName := "get_a" }
+
+/-- a valid run, to be damaged in one place per witness -/
+def wBase : ClientRun := {
+  env := exEnv, cfg := wCfg [],
+  schema := { src := { files := [("/w/schema.graphql", true)] } },
+  queries := { src := { files := [("/w/queries.graphql", true)] }, ops := [wOp] },
+  pkgDirExists := false }
+
+/-- F3: interface not implemented (one validation error) — accepted, the whole package is written -/
+def wInvalidSchema : ClientRun := { wBase with schema := { wBase.schema with trueErrors := 1 } }
+/-- F4: unknown type — graphql-core's TypeError escapes -/
+def wUnknownType : ClientRun := { wBase with schema := { wBase.schema with buildError := some "Unknown type: 'Missing'.", trueErrors := 1 } }
+/-- F2: `fragments_module_name = "not-valid"` — accepted by the settings -/
+def wFragmentsModule : ClientRun :=
+  { wBase with env := badEnv, cfg := wCfg [("fragments_module_name", .str "not-valid")] }
+/-- F6: a schema directory without graphql files -/
+def wNoFiles : ClientRun := { wBase with schema := { src := { files := [] } } }
+/-- F5: malformed @mixin on a fragment that ends up in the fragments module -/
+def wMixinFragment : ClientRun :=
+  { wBase with queries := { wBase.queries with
+      frags := [{ name := "UF", genError := some (.codegen "ParsingError" "Required arguments (from, import) not found.") }] } }
+
+def isOk {ε α : Type} : Except ε α → Bool
+  | .ok _ => true
+  | .error _ => false
+
+theorem isOk_iff {ε α : Type} (x : Except ε α) : isOk x = true ↔ ∃ a, x = .ok a := by
+  cases x <;> simp [isOk]
+
+theorem inDomain_of_accepted (r : ClientRun) (h : isOk (getClientSettings r.env r.cfg).result = true)
+    (hr : r.schema.remote = .ok) (hp : r.plugins.replaces = none) : InDomain r :=
+  ⟨fun e he => (by rw [he] at h; cases h), fun c hc => (by rw [hr] at hc; cases hc), hp⟩
+
+theorem wBase_accepted : isOk (client wBase).result = true ∧ (client wBase).log ≠ [] := ⟨by decide, by decide⟩
+theorem wBase_inDomain : InDomain wBase := inDomain_of_accepted _ (by decide) rfl rfl
+
+theorem invalid_schema_accepted :
+    Invalid wInvalidSchema ∧ InDomain wInvalidSchema ∧ isOk (client wInvalidSchema).result = true :=
+  ⟨Or.inr (Or.inr (Or.inl (Or.inr (by decide)))), inDomain_of_accepted _ (by decide) rfl rfl, by decide⟩
+
+theorem unknown_type_untyped :
+    Invalid wUnknownType ∧ (client wUnknownType).result = .error (.loadSchema, .raw "TypeError") :=
+  ⟨Or.inr (Or.inr (Or.inl (Or.inl (by decide)))), by decide⟩
+
+theorem no_files_untyped :
+    Invalid wNoFiles ∧ (client wNoFiles).result = .error (.loadSchema, .raw "GraphQLSyntaxError") := by
+  refine ⟨Or.inr (Or.inl ?_), by decide⟩
+  obtain ⟨s, hs⟩ := (isOk_iff _).mp (show isOk (getClientSettings wNoFiles.env wNoFiles.cfg).result = true by decide)
+  refine ⟨s, hs, Or.inl ⟨?_, Or.inl rfl⟩⟩
+  intro h
+  have : (getClientSettings wNoFiles.env wNoFiles.cfg).result.toOption.map (·.schemaPath) = some "schema.graphql" := by decide
+  rw [hs] at this
+  simp [Except.toOption, h] at this
+
+theorem fragments_module_accepted : isOk (client wFragmentsModule).result = true := by decide
+
+/-- **C17_full_false**: the property as stated does not hold of the code (model): an invalid schema
+    is accepted and a package is written (finding C17-F3). -/
+theorem C17_full_false : ¬ C17_full := by
+  intro h
+  obtain ⟨hinv, hdom, hok⟩ := invalid_schema_accepted
+  obtain ⟨ph, e, herr, _⟩ := h wInvalidSchema hdom hinv
+  rw [herr] at hok
+  cases hok
+
+/-! ### "no side effects" for every failure, not only for the four classes -/
+
+/-- a failing run leaves the target untouched -/
+def FailsClean (o : Outcome) : Prop := ∀ x, o.result = .error x → o.log = []
+
+def NoSideEffects_full : Prop := ∀ r : ClientRun, FailsClean (client r)
+
+/-- finding C17-F5: a ParsingError raised by the fragments step comes after `mkdir` and two writes -/
+theorem NoSideEffects_full_false : ¬ NoSideEffects_full := by
+  intro h
+  have := h wMixinFragment (.generateWrite, .codegen "ParsingError" "Required arguments (from, import) not found.") (by decide)
+  revert this
+  decide
+
+theorem runSteps_clean (codeError : GenStep → Option PyErr) (hc : ∀ st, codeError st = none)
+    (steps : List (GenStep × String × Option PyErr)) (hs : ∀ st ∈ steps, st.2.2 = none) (log : List Effect) :
+    (runSteps codeError steps log).1 = none := by
+  induction steps generalizing log with
+  | nil => rfl
+  | cons st rest ih =>
+    obtain ⟨g, f, i⟩ := st
+    have hi : i = none := hs (g, f, i) (by simp)
+    subst hi
+    simp only [runSteps, hc]
+    exact ih (fun st hst => hs st (by simp [hst])) _
+
+theorem plannedSteps_clean (env : Env) (s : ClientSettings) (sch : SchemaState) (files : List String) (frags : List FragInfo)
+    (hf : fragmentsStep frags = none ∨ fragmentsStep frags = some none) :
+    ∀ st ∈ plannedSteps env s sch files frags, st.2.2 = none := by
+  have hall : (plannedSteps env s sch files frags).all (fun st => st.2.2.isNone) = true := by
+    unfold plannedSteps
+    rcases hf with hf | hf <;> simp only [hf] <;>
+      cases s.enableCustomOperations <;> cases sch.hasQuery <;> cases sch.hasMutation <;>
+      simp [List.all_append, List.all_map, Function.comp_def]
+  intro st hst
+  have := List.all_eq_true.mp hall st hst
+  cases h : st.2.2 with
+  | none => rfl
+  | some e => simp [h] at this
+
+theorem fragmentsStep_of_no_trigger (q : QueriesOracle) (h : trigFragmentGenError q = false) :
+    fragmentsStep q.frags = none ∨ fragmentsStep q.frags = some none := by
+  unfold trigFragmentGenError at h
+  cases hf : fragmentsStep q.frags with
+  | none => exact Or.inl rfl
+  | some x =>
+    cases x with
+    | none => exact Or.inr rfl
+    | some e => simp [hf] at h
+
+theorem generate_no_late_error (r : ClientRun) (p : Prepared) (ht : trigFragmentGenError r.queries = false)
+    (hc : ∀ st, r.codeError st = none) (e : PyErr) : (generate r p).result ≠ .error (.generateWrite, e) := by
+  by_cases hd : (!(duplicates (allFileNames r.env p.settings p.resultFiles)).isEmpty) = true
+  · simp [generate, hd]
+  · simp only [generate, hd]
+    have hfr : fragmentsStep (if (p.settings.queriesPath != "") = true then r.queries.frags else []) = none ∨
+        fragmentsStep (if (p.settings.queriesPath != "") = true then r.queries.frags else []) = some none := by
+      split
+      · exact fragmentsStep_of_no_trigger _ ht
+      · exact Or.inl rfl
+    have hclean := runSteps_clean r.codeError hc _ (plannedSteps_clean r.env p.settings p.schema p.resultFiles _ hfr)
+      (if r.pkgDirExists = true then [] else [Effect.mkdir])
+    generalize runSteps r.codeError _ _ = rs at hclean ⊢
+    obtain ⟨oe, log⟩ := rs
+    simp at hclean
+    subst hclean
+    simp
+
+/-- **NoSideEffects_partial**: outside finding C17-F5 (and with black accepting every emitted
+    module) EVERY failure of `main.client` — not only those of the four classes — leaves the target
+    untouched. -/
+theorem NoSideEffects_partial (r : ClientRun) (ht : trigFragmentGenError r.queries = false)
+    (hc : ∀ st, r.codeError st = none) : FailsClean (client r) := by
+  intro x hx
+  unfold client at hx ⊢
+  cases hp : prepare r with
+  | error y => rfl
+  | ok p =>
+    simp only [hp] at hx ⊢
+    rcases generate_spec r p with ⟨hl, _⟩ | ⟨e', he'⟩ | ⟨fs, hfs⟩
+    · exact hl
+    · exact absurd he' (generate_no_late_error r p ht hc e')
+    · rw [hfs] at hx; cases hx
+
+example : trigFragmentGenError wBase.queries = false ∧ ∀ st, wBase.codeError st = none := ⟨by decide, fun _ => rfl⟩
+
+/-! ### the part of C17 that holds -/
+
+theorem loadSource_ok_iff (s : Source) :
+    loadSource s = .ok () ↔ s.files ≠ [] ∧ ∀ f ∈ s.files, f.2 = true := by
+  unfold loadSource
+  cases hf : s.files.find? (fun f => !f.2) with
+  | some f =>
+    have hm := List.mem_of_find?_eq_some hf
+    have hb := List.find?_some hf
+    simp only [Bool.not_eq_true'] at hb
+    constructor
+    · intro h; cases h
+    · rintro ⟨_, hall⟩; have := hall f hm; simp [hb] at this
+  | none =>
+    have hall : ∀ f ∈ s.files, f.2 = true := by
+      intro f hfm
+      have := List.find?_eq_none.mp hf f hfm
+      simpa using this
+    cases hl : s.files with
+    | nil => simp
+    | cons a l => simp [hl] at hall ⊢; exact hall
+
+theorem loadSource_error_typed (s : Source) (e : PyErr) (h : loadSource s = .error e) (hne : s.files ≠ []) :
+    e.typed = true := by
+  unfold loadSource at h
+  cases hf : s.files.find? (fun f => !f.2) with
+  | some f => simp [hf] at h; subst h; rfl
+  | none =>
+    simp only [hf] at h
+    cases hl : s.files with
+    | nil => exact absurd hl hne
+    | cons a l => simp [hl] at h
+
+theorem loadSchema_true_source (o : SchemaOracle) (sch : SchemaState) (h : loadSchema true o = .ok sch) :
+    loadSource o.src = .ok () := by
+  unfold loadSchema at h
+  simp only [bind, Except.bind, if_true] at h
+  cases hl : loadSource o.src with
+  | error e => simp [hl] at h
+  | ok u => rfl
+
+theorem loadSchema_error_typed (fromPath : Bool) (o : SchemaOracle) (e : PyErr) (h : loadSchema fromPath o = .error e)
+    (hfiles : fromPath = true → o.src.files ≠ []) (hremote : ∀ c, o.remote ≠ .raw c) (hbuild : o.buildError = none) :
+    e.typed = true := by
+  unfold loadSchema at h
+  simp only [bind, Except.bind, pure, Except.pure, throw, throwThe, MonadExceptOf.throw, hbuild] at h
+  cases fromPath with
+  | true =>
+    simp only [if_true] at h
+    cases hl : loadSource o.src with
+    | error e' =>
+      simp only [hl] at h
+      injection h with h
+      subst h
+      exact loadSource_error_typed _ _ hl (hfiles rfl)
+    | ok u => simp [hl] at h
+  | false =>
+    simp only [Bool.false_eq_true, if_false] at h
+    cases hr : o.remote with
+    | ok => simp [hr] at h
+    | introspectionError m => simp [hr] at h; subst h; rfl
+    | raw c => exact absurd hr (hremote c)
+
+theorem resolvePlugins_error_typed (p : PluginsOracle) (e : PyErr) (h : resolvePlugins p = .error e) : e.typed = true := by
+  unfold resolvePlugins at h
+  split at h
+  · injection h with h; subst h; rfl
+  · cases h
+
+theorem loadQueries_ok (q : QueriesOracle) (h : loadQueries q = .ok ()) :
+    loadSource q.src = .ok () ∧ q.validationErrors = [] := by
+  unfold loadQueries at h
+  simp only [bind, Except.bind, pure, Except.pure, throw, throwThe, MonadExceptOf.throw] at h
+  cases hl : loadSource q.src with
+  | error e => simp [hl] at h
+  | ok u =>
+    simp only [hl] at h
+    cases hv : q.validationErrors with
+    | nil => exact ⟨rfl, rfl⟩
+    | cons a l => simp [hv] at h
+
+theorem loadQueries_error_typed (q : QueriesOracle) (e : PyErr) (h : loadQueries q = .error e) (hne : q.src.files ≠ []) :
+    e.typed = true := by
+  unfold loadQueries at h
+  simp only [bind, Except.bind, pure, Except.pure, throw, throwThe, MonadExceptOf.throw] at h
+  cases hl : loadSource q.src with
+  | error e' =>
+    simp only [hl] at h
+    injection h with h
+    subst h
+    exact loadSource_error_typed _ _ hl hne
+  | ok u =>
+    simp only [hl] at h
+    split at h
+    · cases h
+    · injection h with h; subst h; rfl
+
+theorem documented_of_no_violation (env : Env) (s : ClientSettings) (h : ∀ k, ¬ Violates env s k)
+    (hf : validName env s.fragmentsModuleName = true)
+    (hc : classDeclared env (baseClientData env s).2 (baseClientData env s).1 = true) : Documented env s where
+  queries := by
+    have := h .queriesRequired; simp only [Violates] at this
+    by_cases hq : s.queriesPath = ""
+    · right; cases he : s.enableCustomOperations with
+      | true => rfl
+      | false => exact absurd ⟨hq, he⟩ this
+    · exact Or.inl hq
+  source := by
+    have := h .schemaSource; simp only [Violates] at this
+    by_cases hq : s.schemaPath = ""
+    · right; intro hu; exact this ⟨hq, hu⟩
+    · exact Or.inl hq
+  schemaPath := by
+    intro hne
+    have := h .schemaPathExists; simp only [Violates] at this
+    cases he : env.pathExists s.schemaPath with
+    | true => rfl
+    | false => exact absurd ⟨hne, he⟩ this
+  headers := by
+    intro kv hkv
+    have := h .headers; simp only [Violates] at this
+    apply Classical.byContradiction
+    intro hn
+    exact this ⟨kv, hkv, hn⟩
+  comments := by have := h .commentMode; simp only [Violates] at this; simpa using this
+  queriesPath := by have := h .queriesPathExists; simp only [Violates] at this; simpa using this
+  packageName := by have := h .packageName; simp only [Violates] at this; simpa using this
+  packagePath := by have := h .packagePathDir; simp only [Violates] at this; simpa using this
+  clientName := by have := h .clientName; simp only [Violates] at this; simpa using this
+  clientFileName := by have := h .clientFileName; simp only [Violates] at this; simpa using this
+  baseClientName := by have := h .baseClientName; simp only [Violates] at this; simpa using this
+  baseClientPath := by have := h .baseClientPathExists; simp only [Violates] at this; simpa using this
+  baseClientFile := by have := h .baseClientIsFile; simp only [Violates] at this; simpa using this
+  baseClientClass := hc
+  enumsModule := by have := h .enumsModule; simp only [Violates] at this; simpa using this
+  inputTypesModule := by have := h .inputTypesModule; simp only [Violates] at this; simpa using this
+  fragmentsModule := hf
+  files := by
+    intro f hfm
+    have := h .filesToInclude; simp only [Violates] at this
+    cases he : env.isFile f with
+    | true => rfl
+    | false => exact absurd ⟨f, hfm, he⟩ this
+
+theorem finalize_keeps (env : Env) (s0 : ClientSettings) :
+    (finalizeClient env s0).fragmentsModuleName = s0.fragmentsModuleName ∧
+    (finalizeClient env s0).baseClientName = (baseClientData env s0).1 ∧
+    (finalizeClient env s0).baseClientFilePath = (baseClientData env s0).2 ∧
+    (finalizeClient env s0).schemaPath = s0.schemaPath ∧ (finalizeClient env s0).queriesPath = s0.queriesPath :=
+  ⟨rfl, rfl, rfl, rfl, rfl⟩
+
+/-- outside the finding triggers, an input on which every phase up to the validation of the
+    operations succeeds is not invalid -/
+theorem passes_contradict (r : ClientRun) (hd : InDomain r) (hs : Supported r) (hi : Invalid r)
+    (s : ClientSettings) (sch : SchemaState)
+    (h1 : (getClientSettings r.env r.cfg).result = .ok s)
+    (h2 : loadSchema (s.schemaPath != "") r.schema = .ok sch)
+    (h5 : (s.queriesPath != "") = true → loadQueries r.queries = .ok ()) : False := by
+  simp only [Supported, not_or] at hs
+  obtain ⟨hF2, hF3, hF4, _, hF6, hF7⟩ := hs
+  rcases hi with hc | hsyn | hsch | hop
+  · -- configuration
+    unfold ConfigInvalid at hc
+    have h1' := h1
+    simp only [getClientSettings, bind, Except.bind] at h1'
+    cases hraw : (readRawClient r.env r.cfg).result with
+    | error e => simp [hraw] at h1'
+    | ok s0 =>
+      simp only [hraw] at h1' hc
+      have hnv := (accepted_iff r.env s0).mp ⟨s, h1'⟩
+      have hs' : s = finalizeClient r.env s0 := by
+        have := valid_accepted r.env s0 hnv
+        rw [this] at h1'
+        injection h1' with h
+        exact h.symm
+      obtain ⟨k1, k2, k3, _, _⟩ := finalize_keeps r.env s0
+      apply hc
+      apply documented_of_no_violation r.env s0 hnv
+      · simp only [trigFragmentsModuleName, h1] at hF2
+        rw [hs', k1] at hF2
+        cases hv : validName r.env s0.fragmentsModuleName with
+        | true => rfl
+        | false => simp [hv] at hF2
+      · simp only [trigClassSubstring, h1] at hF7
+        rw [hs', k2, k3] at hF7
+        cases hv : classDeclared r.env (baseClientData r.env s0).2 (baseClientData r.env s0).1 with
+        | true => rfl
+        | false => simp [hv] at hF7
+  · -- syntax
+    obtain ⟨s', hs', hbad⟩ := hsyn
+    rw [h1] at hs'
+    injection hs' with hs'
+    subst hs'
+    rcases hbad with ⟨hp, hb⟩ | ⟨hq, hb⟩
+    · have hfp : (s.schemaPath != "") = true := by simpa using hp
+      rw [hfp] at h2
+      have hsrc := (loadSource_ok_iff _).mp (loadSchema_true_source _ _ h2)
+      rcases hb with hb | ⟨f, hf, hff⟩
+      · exact hsrc.1 hb
+      · have := hsrc.2 f hf; simp [hff] at this
+    · have hq' : (s.queriesPath != "") = true := by simpa using hq
+      have hsrc := (loadSource_ok_iff _).mp (loadQueries_ok _ (h5 hq')).1
+      rcases hb with hb | ⟨f, hf, hff⟩
+      · exact hsrc.1 hb
+      · have := hsrc.2 f hf; simp [hff] at this
+  · -- schema
+    have hb := (loadSchema_ok _ _ _ h2).2.2.2
+    rcases hsch with hsome | hne
+    · simp [hb] at hsome
+    · apply hF3
+      simp [trigInvalidSchemaAssumed, hb, hd.plugins, codeAssumeValid, hne]
+  · -- operations
+    obtain ⟨s', hs', hq, hv⟩ := hop
+    rw [h1] at hs'
+    injection hs' with hs'
+    subst hs'
+    have hq' : (s.queriesPath != "") = true := by simpa using hq
+    exact hv (loadQueries_ok _ (h5 hq')).2
+
+/-- **C17_partial**: outside the six finding triggers, every input of the four invalid classes
+    (configuration violating a documented constraint, a graphql file that does not parse, an invalid
+    schema, an operation invalid for the schema) makes `main.client` fail with one of
+    ariadne-codegen's own exception classes and an EMPTY effect log.  (For invalid schemas the
+    statement is vacuous: every invalid schema lies inside the triggers of C17-F3/F4 — that is the finding.) -/
+theorem C17_partial (r : ClientRun) (hd : InDomain r) (hs : Supported r) (hi : Invalid r) :
+    RejectedUpFront (client r) := by
+  have hs' := hs
+  simp only [Supported, not_or] at hs'
+  obtain ⟨_, _, hF4, _, hF6, _⟩ := hs'
+  have hbuild : r.schema.buildError = none := by
+    simp only [trigSchemaBuildTypeError] at hF4
+    cases hb : r.schema.buildError with
+    | none => rfl
+    | some m => simp [hb] at hF4
+  unfold client
+  cases hp : prepare r with
+  | ok p =>
+    obtain ⟨s, sch, h1, h2, _, _, h5, _⟩ := prepare_ok_cases r p hp
+    exact (passes_contradict r hd hs hi s sch h1 h2 h5).elim
+  | error x =>
+    obtain ⟨ph, e⟩ := x
+    refine ⟨ph, e, rfl, ?_, rfl⟩
+    rcases prepare_error_cases r ph e hp with ⟨ce, hce, _, he⟩ | ⟨s, h1, ⟨hl, _⟩ | ⟨sch, h2, ⟨hpl, _⟩ | ⟨_, ⟨ha, _⟩ | ⟨_, ⟨hq, hlq, _⟩ | ⟨_, h5⟩⟩⟩⟩⟩
+    · subst he; exact hd.wellTyped ce hce
+    · have hfiles : (s.schemaPath != "") = true → r.schema.src.files ≠ [] := by
+        intro hsp hnil
+        apply hF6
+        simp [trigNoGraphqlFiles, h1, hsp, hnil]
+      exact loadSchema_error_typed _ _ e hl hfiles hd.remote hbuild
+    · exact resolvePlugins_error_typed _ e hpl
+    · rw [assert_valid_is_vacuous _ _ _ _ h2 hd.plugins] at ha; cases ha
+    · have hfiles : r.queries.src.files ≠ [] := by
+        intro hnil
+        apply hF6
+        simp [trigNoGraphqlFiles, h1, hq, hnil]
+      exact loadQueries_error_typed _ e hlq hfiles
+    · exact (passes_contradict r hd hs hi s sch h1 h2 h5).elim
+
+/-- non-vacuity of `C17_partial`: an invalid operation on an otherwise valid, supported run -/
+def wInvalidOperation : ClientRun :=
+  { wBase with queries := { wBase.queries with validationErrors := ["Cannot query field 'zzz' on type 'Query'."] } }
+
+theorem wInvalidOperation_hyps : InDomain wInvalidOperation ∧ Supported wInvalidOperation ∧ Invalid wInvalidOperation := by
+  refine ⟨inDomain_of_accepted _ (by decide) rfl rfl, by simp only [Supported]; decide, Or.inr (Or.inr (Or.inr ?_))⟩
+  obtain ⟨s, hs⟩ := (isOk_iff _).mp (show isOk (getClientSettings wInvalidOperation.env wInvalidOperation.cfg).result = true by decide)
+  refine ⟨s, hs, ?_, by decide⟩
+  intro h
+  have : (getClientSettings wInvalidOperation.env wInvalidOperation.cfg).result.toOption.map (·.queriesPath) = some "queries.graphql" := by decide
+  rw [hs] at this
+  simp [Except.toOption, h] at this
+
+example : (client wInvalidOperation).result =
+    .error (.loadQueries, .codegen "InvalidOperationForSchema" "Cannot query field 'zzz' on type 'Query'.") ∧
+    (client wInvalidOperation).log = [] := ⟨by decide, by decide⟩
+
+/-- the union of the theorem region and the finding regions is everything (by definition) -/
+theorem supported_or_triggered (r : ClientRun) :
+    Supported r ∨ trigFragmentsModuleName r.env r.cfg = true ∨ trigInvalidSchemaAssumed r.schema r.plugins = true ∨
+      trigSchemaBuildTypeError r.schema = true ∨ trigFragmentGenError r.queries = true ∨
+      trigNoGraphqlFiles r = true ∨ trigClassSubstring r.env r.cfg = true := by
+  unfold Supported
+  by_cases h : (trigFragmentsModuleName r.env r.cfg = true ∨ trigInvalidSchemaAssumed r.schema r.plugins = true ∨
+     trigSchemaBuildTypeError r.schema = true ∨ trigFragmentGenError r.queries = true ∨
+     trigNoGraphqlFiles r = true ∨ trigClassSubstring r.env r.cfg = true)
+  · exact Or.inr h
+  · exact Or.inl h
+
+/-- the witnesses sit inside their triggers -/
+example : trigInvalidSchemaAssumed wInvalidSchema.schema wInvalidSchema.plugins = true := by decide
+example : trigSchemaBuildTypeError wUnknownType.schema = true := by decide
+example : trigFragmentsModuleName wFragmentsModule.env wFragmentsModule.cfg = true := by decide
+example : trigNoGraphqlFiles wNoFiles = true := by decide
+example : trigFragmentGenError wMixinFragment.queries = true := by decide
+
+/-! ### the two configuration findings as invalid-but-accepted runs -/
+
+theorem configInvalid_of (env : Env) (cfg : J) (s : ClientSettings) (hraw : (readRawClient env cfg).result = .ok s)
+    (hn : ¬ Documented env s) : ConfigInvalid env cfg := by
+  unfold ConfigInvalid; rw [hraw]; exact hn
+
+/-- F2: the configuration violates "names usable as Python modules", yet the whole command succeeds -/
+theorem fragments_module_invalid_but_accepted :
+    Invalid wFragmentsModule ∧ isOk (client wFragmentsModule).result = true := by
+  refine ⟨Or.inl ?_, by decide⟩
+  obtain ⟨s, hs⟩ := (isOk_iff _).mp (show isOk (readRawClient wFragmentsModule.env wFragmentsModule.cfg).result = true by decide)
+  refine configInvalid_of _ _ s hs (fun d => ?_)
+  have hn : (readRawClient wFragmentsModule.env wFragmentsModule.cfg).result.toOption.map (·.fragmentsModuleName) = some "not-valid" := by decide
+  rw [hs] at hn
+  simp only [Except.toOption, Option.map, Option.some.injEq] at hn
+  have := d.fragmentsModule
+  rw [hn] at this
+  revert this
+  decide
+
+def prefEnv : Env := { exEnv with readText := fun _ => "class MyBaseClient:" }
+/-- F7: `base_client_name = "MyBase"` for a file that only declares `MyBaseClient` -/
+def wClassPrefix : ClientRun :=
+  { wBase with env := prefEnv,
+               cfg := wCfg [("base_client_name", .str "MyBase"), ("base_client_file_path", .str "/w/custom_base.py")] }
+
+theorem class_prefix_invalid_but_accepted :
+    Invalid wClassPrefix ∧ isOk (client wClassPrefix).result = true ∧
+    trigClassSubstring wClassPrefix.env wClassPrefix.cfg = true := by
+  refine ⟨Or.inl ?_, by decide, by decide⟩
+  obtain ⟨s, hs⟩ := (isOk_iff _).mp (show isOk (readRawClient wClassPrefix.env wClassPrefix.cfg).result = true by decide)
+  refine configInvalid_of _ _ s hs (fun d => ?_)
+  have hn : (readRawClient wClassPrefix.env wClassPrefix.cfg).result.toOption.map
+      (fun s => (s.baseClientName, s.baseClientFilePath)) = some ("MyBase", "/w/custom_base.py") := by decide
+  rw [hs] at hn
+  simp only [Except.toOption, Option.map, Option.some.injEq, Prod.mk.injEq] at hn
+  have := d.baseClientClass
+  have hcond : ("MyBase" == "" && "/w/custom_base.py" == "") = false := by decide
+  simp only [baseClientData, hn.1, hn.2, hcond, Bool.false_eq_true, if_false] at this
+  revert this
+  decide
 
 end Ariadne.C17
